@@ -109,3 +109,4 @@ mod verif_k3 {
         std::mem::forget(e);
     }
 }
+
